@@ -23,7 +23,9 @@ var filterFields = []FField{
 }
 
 var intVals = []Leaf{{Text: "5", Kind: "int", Int: 5}, {Text: "-3", Kind: "int", Int: -3}, {Text: "0", Kind: "int", Int: 0},
-	{Text: "42", Kind: "int", Int: 42}, {Text: "1000000", Kind: "int", Int: 1000000}, {Text: "7", Kind: "int", Int: 7}}
+	{Text: "42", Kind: "int", Int: 42}, {Text: "1000000", Kind: "int", Int: 1000000}, {Text: "7", Kind: "int", Int: 7},
+	{Text: "9007199254740993", Kind: "int", Int: 9007199254740993}, {Text: "9223372036854775807", Kind: "int", Int: 9223372036854775807},
+	{Text: "-9007199254740993", Kind: "int", Int: -9007199254740993}}
 
 // decimals Go represents exactly as written with at most two fractional digits
 var decVals2 = []Leaf{{Text: "1.5", Kind: "float", Flt: 1.5}, {Text: "-0.25", Kind: "float", Flt: -0.25}, {Text: "12.75", Kind: "float", Flt: 12.75},
